@@ -1317,3 +1317,9 @@ func rv4ConsumedTextNotDropped(w *World) {
 		w.ok("consumed-text-dropped", token.NoPos, fmt.Sprintf("none of the %d variables assigned from a cursor-advancing method is overwritten before it is read", nSites))
 	}
 }
+
+// rwExplore: exploration only (VERIF_EXPLORE=1), never registered.
+func rwExplore(w *World) {
+	constIndexGuards(w, "RWX", []string{"linker", "options", "sourceinfo", "", "internal", "protoutil", "reporter", "ast"},
+		func(string) bool { return true }, map[string]string{}, 0, "exploration")
+}
